@@ -20,7 +20,7 @@ vars == <<mods, owns, exports, decls, graph, nops, last>>
 
 (* wildcard matching of the four pattern shapes over the fixed rule alphabet {"ra","rb","xa"} *)
 Match(p, r) == CASE p = "*"  -> TRUE
-                 [] p = "r*" -> r \in {"ra", "rb"}
+                 [] p = "r*" -> r \in {"ra", "rb", "r"}        \* "r" is the pattern's fixed part itself
                  [] p = "*a" -> r \in {"ra", "xa"}
                  [] OTHER    -> p = r
 
@@ -83,6 +83,14 @@ InitRe == /\ mods = Mods
           /\ decls = [m \in Mods |-> <<>>]
           /\ graph = {}
           /\ nops = 0 /\ last = [op |-> "init", ok |-> TRUE]
+
+(* the same with a rule whose name equals the fixed part of the wildcard patterns *)
+InitRe2 == /\ mods = Mods
+           /\ owns = [m \in Mods |-> IF m = "B" THEN {"ra", "rb", "r"} ELSE IF m = "A" THEN {"xa"} ELSE {}]
+           /\ exports = [m \in Mods |-> IF m \in {"MAIN", "B"} THEN "all" ELSE "none"]
+           /\ decls = [m \in Mods |-> <<>>]
+           /\ graph = {}
+           /\ nops = 0 /\ last = [op |-> "init", ok |-> TRUE]
 
 Fail(lbl) == /\ UNCHANGED <<mods, owns, exports, decls, graph>>
              /\ last' = [lbl EXCEPT !.ok = FALSE]
